@@ -248,7 +248,7 @@ theorem decodeWith_alloc_le {σ : Type} (c : Cfg) (rd : Nat → σ → Bytes × 
     (decodeWith c rd s).1 ≤ c.max := by
   unfold decodeWith
   split
-  · simp
+  · split <;> simp
   · simp
   · split
     · simp
@@ -266,10 +266,13 @@ theorem decodeWith_alloc_le {σ : Type} (c : Cfg) (rd : Nat → σ → Bytes × 
 /-! ## end of log, torn records -/
 
 theorem decodeWith_eof_inv {σ : Type} (c : Cfg) (rd : Nat → σ → Bytes × RErr × σ) (s : σ) {a : Nat}
-    (h : decodeWith c rd s = (a, .eof)) : (rd 4 s).2.1 = .eof := by
+    (h : decodeWith c rd s = (a, .eof)) : (rd 4 s).2.1 = .eof ∧ (rd 4 s).1 = [] := by
   unfold decodeWith at h
   split at h
-  · rename_i h1; rw [h1]
+  · rename_i h1
+    split at h
+    · rename_i hb; rw [h1]; exact ⟨rfl, hb⟩
+    · cases h
   · cases h
   · split at h
     · cases h
@@ -283,27 +286,33 @@ theorem decodeWith_eof_inv {σ : Type} (c : Cfg) (rd : Nat → σ → Bytes × R
           · cases h
           · split at h <;> cases h
 
-/-- end of log is reported only when fewer than 4 bytes are left (none, for the plain readers) -/
-theorem decode_eof_inv (c : Cfg) (k : RKind) (s : Bytes) (h : decode c k s = .eof) : s.length < 4 := by
+/-- **end of log is reported only when nothing is left**, whatever the reader (F38: before the fix
+the group reader reported it for 1-3 left-over bytes too) -/
+theorem decode_eof_nil (c : Cfg) (k : RKind) (s : Bytes) (h : decode c k s = .eof) : s = [] := by
   have h' : decodeWith c (read k) s = ((decodeA c k s).1, .eof) := by rw [← h]; rfl
-  have e := decodeWith_eof_inv c (read k) s h'
+  obtain ⟨e, eb⟩ := decodeWith_eof_inv c (read k) s h'
   cases k
-  · simp only [read] at e
+  · simp only [read] at e eb
     split at e
     · cases e
     · split at e
       · cases e
-      · omega
+      · rename_i h0 h1
+        simp only [h0, h1, if_false] at eb
+        exact eb
   · simp only [read] at e
     split at e
     · cases e
     · split at e
-      · omega
+      · exact List.eq_nil_of_length_eq_zero (by assumption)
       · cases e
   · simp only [read] at e
     split at e
-    · omega
+    · exact List.eq_nil_of_length_eq_zero (by assumption)
     · cases e
+
+theorem decode_eof_inv (c : Cfg) (k : RKind) (s : Bytes) (h : decode c k s = .eof) : s.length < 4 := by
+  rw [decode_eof_nil c k s h]; simp
 
 /-- through a group reader nothing is zero-filled: the whole record was there -/
 theorem decode_group_len (c : Cfg) (s x rest : Bytes) (h : decode c .group s = .msg x rest) :
